@@ -19,6 +19,8 @@
 -/
 import LtVerif.Model.Date
 import LtVerif.Extracted.RangeConst
+set_option linter.unusedSimpArgs false
+set_option linter.unusedVariables false
 namespace LtVerif
 namespace Range
 open B Date
